@@ -116,6 +116,18 @@ def run(ctx):
         info[t["id"]] = dict(meta, src="long-run", advance=True, step=step[0] if step[0] == "new" else "again@%d" % step[2])
         n_long += 1
     res.coverage["long_run_requests"] = n_long
+    # scale: counts that need more than a byte (255 / 256 / 257 blocks in one request, 255 brothers for one block)
+    n_scale = 0
+    for nb, bro in ((255, None), (256, None), (257, None), (2, [255, 1]), (1, [254])) if ctx.quick else \
+            ((255, None), (256, None), (257, None), (300, None), (1000, None), (2, [255, 1]), (1, [254]), (3, [255, 255, 255])):
+        for advance in ((True, False) if bro is None else (True,)):
+            blocks = reqs.blocks(ctx.rng, nb, advance, bro_counts=(bro if bro is not None else [0] * nb) if advance else None)
+            t, meta = lbench.run(blocks, advance, FaithfulBlockPolicy(), ctx.rng, coop=True)
+            t["id"] = len(traces) + 1
+            traces.append(t)
+            info[t["id"]] = dict(meta, src="scale", advance=advance, n_blocks=nb, brothers=bro)
+            n_scale += 1
+    res.coverage["requests_at_scale"] = n_scale
     # headers sized at the boundaries where the encodings change form
     n_bound = 0
     targets = blockx.BOUNDARY_LENGTHS + (blockx.BOUNDARY_LENGTHS_BIG if not ctx.quick else blockx.BOUNDARY_LENGTHS_BIG[-1:])
